@@ -37,7 +37,7 @@ def cases(draw):
             kinds = draw(st.sampled_from([["req"], ["req", "ans"], ["generic-req"]]))
             subs.append({"msgs": [{"kind": kinds[j % len(kinds)], "size": 0} for j in range(k)], "api": "send_messages", "gap": 0})
             continue
-        msgs = [{"kind": draw(st.sampled_from(["req", "ans", "generic-req"])),
+        msgs = [{"kind": draw(st.sampled_from(["req", "ans", "generic-req", "generic-ans"])),
                  "size": draw(st.sampled_from([0, 1, 5, 100, 3000, 0, 1, 5, 100, 3000, 90000, 90000, 90000, 262100, 270000]))} for _ in range(k)]
         # pause between two submissions of one thread (virtual seconds): several hand-overs to the transport instead of one batch
         subs.append({"msgs": msgs, "api": draw(st.sampled_from(["send_message", "send_message", "send_messages"])),
@@ -85,6 +85,9 @@ def build_msgs(case):
                 msg = DiameterAnswer(command_code=316, application_id=16777251, avps=avps + [C("ResultCodeAVP")(2001)])
                 msg.header.hop_by_hop = 500000 + si * 100 + mi
                 msg.header.end_to_end = 600000 + si * 100 + mi
+            elif m["kind"] == "generic-ans":
+                msg = DiameterMessage(DiameterHeader(flags=0x40, command_code=318, application_id=16777251,
+                                                     hop_by_hop=900000 + si * 100 + mi, end_to_end=950000 + si * 100 + mi), avps + [C("ResultCodeAVP")(2001)])
             else:
                 msg = DiameterMessage(DiameterHeader(flags=0xC0, command_code=318, application_id=16777251,
                                                      hop_by_hop=700000 + si * 100 + mi, end_to_end=800000 + si * 100 + mi), avps)
